@@ -100,13 +100,32 @@ def template_function(rng, name):
     return "def %s(p) {\n  %s\n}\n" % (name, "\n  ".join(lines))
 
 
-FOLDABLE_ARGS = ["(true || false)", "!false", "!true", "(true && true)", "-5", "(2 + 3)", "(2 * 3 + 1)", "+7", "~1", "(1 < 2)", "(10 / 3)", "1.5 * 2",
+FOLDABLE_ARGS = ["\"draft\"", "1", "[3, 4]", "(true || false)", "!false", "!true", "(true && true)", "-5", "(2 + 3)", "(2 * 3 + 1)", "+7", "~1", "(1 < 2)", "(10 / 3)", "1.5 * 2",
                  "double(2)", "int(3)", "(7 % 4)", "(1 << 3)", "\"a\" + \"b\"", "[1, 2]", "'c'", "(true ? 1 : 2)", "3", "true", "\"lit\"", "2.5"]
+
+
+def numeric_literal_function(rng, name):
+    """all-numeric inline containers mutated element-wise, through a ranged-for variable and through aliases"""
+    lit = "[" + ", ".join(str(rng.randrange(0, 50)) for _ in range(rng.randrange(1, 5))) + "]"
+    body = rng.choice([
+        "var v = %s\n  v[0] = v[0] + p\n  v[0] += 1\n  v" % lit,
+        "var v = %s\n  for (e : v) { e += p }\n  v" % lit,
+        "var s = 0\n  for (e : %s) { e *= 2; s += e }\n  s" % lit,
+        "var v = %s\n  var &r = v[0]\n  r = r + 10\n  v" % lit,
+        "var m = [\"a\": %d, \"b\": %d]\n  m[\"a\"] += p\n  m[\"a\"] + m[\"b\"]" % (rng.randrange(9), rng.randrange(9)),
+        "var v = [%s, %s]\n  v[0][0] += p\n  v[1].push_back(p)\n  v" % (lit, lit),
+        "var r = [1..%d]\n  r[0] += p\n  r" % rng.randrange(2, 5),
+        "auto v = %s\n  ++v[0]\n  --v[0]\n  ++v[0]\n  v[0]" % lit,
+        "%s[0] + p" % lit,
+        "var x = %d\n  x += p\n  var y = 2.5\n  y *= 2\n  var c = 'a'\n  ++c\n  [x, y, c]" % rng.randrange(9),
+    ])
+    return "def %s(p) {\n  %s\n}\n" % (name, body)
 
 
 def mutparam_function(rng, name):
     """assigns to its parameter: must fail identically every time, or succeed without leaving a trace in the caller's expression"""
-    mut = rng.choice(["p = p", "p = !p", "p += 1", "p = p + p", "++p", "p *= 2", "p = -p", "p.push_back(1)", "p += \"x\"", "p = [9]", "p = false", "p = 0"])
+    mut = rng.choice(["p = p", "p = !p", "p += 1", "p = p + p", "++p", "p *= 2", "p = -p", "p.push_back(1)", "p += \"x\"", "p = [9]", "p = false", "p = 0",
+                      "p := 7", "var other = 99; p := other", "p := \"rebound\"", "p := [1, 2]", "var o2 = !p; p := o2"])
     return "def %s(p) {\n  var old = p\n  %s\n  [old, p]\n}\n" % (name, mut)
 
 
@@ -120,7 +139,10 @@ def gen_case(rng, idx):
         names.append((mname, "mut", None))
     for j in range(nf):
         name = "t%d_%d" % (idx % 1000, j)
-        if rng.random() < 0.7:
+        k = rng.random()
+        if k < 0.2:
+            defs += numeric_literal_function(rng, name)
+        elif k < 0.7:
             defs += template_function(rng, name)
         else:
             g = gen.Gen(rng, PROFILE)
